@@ -57,7 +57,7 @@ Theorem C02_exit_cascade_in_region_order : forall mc children fuel ev n r rn g,
 Proof. exact exit_regions_seq. Qed.
 Print Assumptions C02_exit_cascade_in_region_order.
 
-Theorem C02_entry_cascade_in_region_order : forall mc children fuel ev n r rn g,
-  start_regions mc children fuel ev n r rn g = iterM (entry_step mc children fuel ev) (seqn r n) rn g.
+Theorem C02_entry_cascade_in_region_order : forall cf mc children fuel ev n r rn g,
+  start_regions cf mc children fuel ev n r rn g = iterM (entry_step cf mc children fuel ev) (seqn r n) rn g.
 Proof. exact start_regions_seq. Qed.
 Print Assumptions C02_entry_cascade_in_region_order.
